@@ -303,6 +303,53 @@ def run(ctx):
         if ok:
             ctx.validated()
     run_line_skeletons(ctx, jinja2)
+    run_loader_overlays(ctx, jinja2, cfgs, tags1)
+
+
+def run_loader_overlays(ctx, jinja2, cfgs, tags1):
+    """templates fetched BY NAME (loader + template cache) through a base environment first, then the same
+    names through an overlay with different syntax / whitespace options, including an including template:
+    the overlay must render what a fresh loader-backed Environment with the overlay's options renders, and
+    the base must still render what it rendered before"""
+    from . import c12
+    for j in range(ctx.size(120, 1200)):
+        c = ctx.rng.choice(cfgs)
+        n = ctx.rng.randint(1, 3)
+        parts = []
+        for i in range(n):
+            parts.append("".join(ctx.rng.choice([" ", "\n", "a", "b\n"]) for _ in range(ctx.rng.randint(0, 3))))
+            parts.append(ctx.rng.choice(tags1))
+        parts.append(ctx.rng.choice(["", "\n", " x\n"]))
+        k = c12.skel(parts)
+        base_cfg = L.Cfg("default")
+        ka, kb = ctx.driver("lex", ["K %s %s" % (base_cfg.enc(), k), "K %s %s" % (c.enc(), k)])
+        src_a, src_b = L.dec_str(ka.split(" ")[0]), L.dec_str(kb.split(" ")[0])
+        bs, be = c.d[0], c.d[1]
+        templates = {"a": src_a, "b": src_b, "inc": "[" + bs + " include 'b' " + be + "|" + bs + " include 'a' " + be + "]",
+                     "inc_base": "[{% include 'a' %}]"}
+        names = sorted(templates)
+        kw = c.kwargs()
+        cache_size = ctx.rng.choice([400, -1, 50])
+        base = jinja2.Environment(loader=jinja2.DictLoader(templates), cache_size=cache_size)
+        before = {nm: safe(jinja2, lambda: base.get_template(nm).render()) for nm in names}     # base first, by name
+        ov = base.overlay(**kw)
+        got = {nm: safe(jinja2, lambda: ov.get_template(nm).render()) for nm in names}
+        fresh_env = jinja2.Environment(loader=jinja2.DictLoader(templates), cache_size=cache_size, **kw)
+        want = {nm: safe(jinja2, lambda: fresh_env.get_template(nm).render()) for nm in names}
+        after = {nm: safe(jinja2, lambda: base.get_template(nm).render()) for nm in names}
+        case = {"kind": "loader-overlay", "cfg": c.describe(), "templates": templates, "cache_size": cache_size}
+        ctx.case(sample=case if j < 2 else None, key=("loader", c.key(), k))
+        ctx.count("loader_overlay")
+        bad = {nm: (got[nm], want[nm]) for nm in names if got[nm] != want[nm]}
+        bad2 = {nm: (before[nm], after[nm]) for nm in names if before[nm] != after[nm]}
+        if bad:
+            ctx.reject(case, "overlay.get_template renders differently from a fresh Environment with the same options (overlay, fresh): %r" % bad,
+                       "C13:loader-overlay:%s:%s" % (k, c.key()))
+        elif bad2:
+            ctx.reject(case, "the base environment renders differently after the overlay was used (before, after): %r" % bad2,
+                       "C13:loader-base:%s:%s" % (k, c.key()))
+        else:
+            ctx.validated()
 
 
 def lead_ok(s):
@@ -368,7 +415,24 @@ def replay(ctx, data):
         print("replay: this file names a broken theorem/correspondence, not an input:", data.get("broken"))
         return run(ctx)
     kind = case.get("kind")
-    if kind == "line-skeleton":
+    if kind == "loader-overlay":
+        c = L.Cfg.from_desc(case["cfg"])
+        tp, kw = case["templates"], c.kwargs()
+        base = jinja2.Environment(loader=jinja2.DictLoader(tp), cache_size=case["cache_size"])
+        for nm in sorted(tp):
+            safe(jinja2, lambda: base.get_template(nm).render())
+        ov = base.overlay(**kw)
+        fresh_env = jinja2.Environment(loader=jinja2.DictLoader(tp), cache_size=case["cache_size"], **kw)
+        bad = {}
+        for nm in sorted(tp):
+            g = safe(jinja2, lambda: ov.get_template(nm).render())
+            w = safe(jinja2, lambda: fresh_env.get_template(nm).render())
+            print(nm, repr(tp[nm]), "overlay:", g, "fresh:", w)
+            if g != w:
+                bad[nm] = (g, w)
+        if bad:
+            ctx.reject(case, "overlay.get_template differs from a fresh Environment: %r" % bad, data.get("signature"))
+    elif kind == "line-skeleton":
         c = L.Cfg("line", True, True, keep=case["keep_trailing_newline"])
         env = L.env_for(jinja2, c)
         ob = safe(jinja2, lambda: env.from_string(case["block_form"]).render())
